@@ -1,14 +1,27 @@
 """C03 — filter chains per appender, fan-out isolation, error handler calls.
-case: ( node_level L ( (fails (filter ...)) ... ) ( attached ... ) )"""
+case: ( node_level L ( (fails (filter ...)) ... ) ( attached ... ) )
+   or ( 1 apps nodes calls mode )   re-entrant / unwinding / two-thread history:
+      nodes = ( (level (attached ...)) ... ), call = ( id by_handler by_app node L (panic-app ...) (kid ...) )"""
 import itertools
 
 RULE = ("exhaustive: every scripted chain over {Accept,Neutral,Reject} of length <= 4 on one appender x "
         "fails/succeeds x 5 record levels x 3 node levels; every threshold level x record level inside a "
         "chain; then random fan-outs of 1-4 appenders (chains <= 5 incl. threshold filters, random "
-        "failing flags, attachment lists with repeats). non-trivial = at least one filter is consulted "
-        "and the node admits the record; distinct = distinct case line")
+        "failing flags, attachment lists with repeats); then HISTORIES: random call trees (depth <= 3, <= 2 "
+        "nested calls per call, 1-3 top-level calls) over 1-3 appenders and 1-3 nodes in which an appender "
+        "logs further records through the same Logger from inside append() (to other appenders and to "
+        "itself), the error handler logs records that fail again, scripted appenders panic inside append() "
+        "(caught by the caller, followed by ordinary calls on the same thread), and in mode 1 a second "
+        "thread logs while the first thread is blocked inside the error handler; plus a fixed list of such "
+        "scenarios. non-trivial = at least one filter is consulted and the node admits the record (plain "
+        "cases) / the history has a nested call, a panic or two threads; distinct = distinct case line")
 ASSUMPTIONS = ["scripted filters answer the same for every call on the same record",
-               "the logger under test has the root as only node (routing is C01's subject)"]
+               "the logger under test has the root as only node (routing is C01's subject); histories use "
+               "the root and non-additive child loggers addressed by exact target",
+               "in histories the scripted Append/handler behaviour (nested calls, panic) depends on the record "
+               "only and call ids are unique; user code holds no lock while it logs (no self-deadlock)",
+               "mode-1 global order is fixed by the harness's rendezvous (handler event, then all of thread 2, "
+               "then the rest of thread 1); other interleavings are covered by the theorem, not by the test"]
 EXHAUSTIVE = {"quick": False, "thorough": False}
 
 
@@ -40,22 +53,123 @@ def cases(rng, tier):
             apps.append([rng.below(2), fs])
         att = [rng.below(na) for _ in range(rng.below(6))]
         out.append([rng.choice([0, 1, 2, 3, 4, 5, 5, 5]), rng.range(1, 5 + 0), apps, att])
+    out.extend(_fixed_histories())
+    n_hist = 2500 if tier == "quick" else 40000
+    for _ in range(n_hist):
+        out.append(_history(rng))
     return out
 
 
+def _fixed_histories():
+    """the scenarios named in the property discussion, spelled out"""
+    N, ok, bad = [0, 1], [0, []], [1, []]
+    neutral_ok, neutral_bad = [0, [N]], [1, [N]]
+    out = []
+    for fa in (0, 1):
+        for fb in (0, 1):
+            apps = [[fa, [N]], [fb, [N, [1, 3]]]]
+            # (a) A logs, from inside append(), a record routed to B only / to A itself / to both
+            for nodes, knode in (([[5, [0]], [5, [1]]], 1), ([[5, [0]], [5, [0]]], 1), ([[5, [0, 1]]], 0),
+                                 ([[5, [1, 0]]], 0), ([[5, [0]], [5, [0, 1, 0]]], 1)):
+                for kl in (1, 3, 5):
+                    out.append([1, apps, nodes, [[1, 0, 0, 0, 2, [], [[2, 0, 0, knode, kl, [], []]]]], 0])
+            # (b) the handler logs a record whose delivery fails again (depth 1 and 2)
+            nodes = [[5, [0, 1]], [5, [1, 0]]]
+            out.append([1, apps, nodes, [[1, 0, 0, 0, 2, [], [[2, 1, 0, 1, 1, [], []], [3, 1, 1, 0, 1, [], []]]]], 0])
+            out.append([1, apps, nodes, [[1, 0, 0, 0, 2, [], [[2, 1, 0, 1, 1, [], [[3, 1, 1, 0, 2, [], []],
+                                                                                     [4, 1, 0, 0, 3, [], []]]]]]], 0])
+            # (c) thread 2 logs a failing record while thread 1 is inside the handler
+            for rest in ([[2, 0, 0, 0, 1, [], []]], [[2, 0, 0, 1, 2, [], []], [3, 0, 0, 0, 3, [], []]]):
+                out.append([1, apps, nodes, [[1, 0, 0, 0, 2, [], [[9, 1, 0, 1, 1, [], []]]]] + rest, 1])
+            # (d) an appender panics once inside append (caught), later records are ordinary
+            for pan in ([0], [1], [0, 1]):
+                out.append([1, apps, nodes, [[1, 0, 0, 0, 2, pan, []], [2, 0, 0, 0, 2, [], []],
+                                             [3, 0, 0, 1, 1, [], [[4, 0, 1, 0, 1, [], []]]]], 0])
+                out.append([1, apps, nodes, [[1, 0, 0, 0, 2, [], [[5, 0, 0, 1, 2, pan, []]]], [2, 0, 0, 0, 2, [], []]], 0])
+                out.append([1, apps, nodes, [[1, 0, 0, 0, 2, pan, []], [2, 0, 0, 0, 2, [], []]], 1])
+    return out
+
+
+def _history(rng):
+    na = rng.range(1, 3)
+    apps = []
+    for _a in range(na):
+        fs = []
+        for _k in range(rng.below(4)):
+            if rng.chance(1, 3):
+                fs.append([1, rng.range(2, 5)])
+            else:
+                fs.append([0, rng.choice([0, 1, 1, 1, 1, 2])])
+        apps.append([rng.below(2), fs])
+    nn = rng.range(1, 3)
+    nodes = [[rng.choice([2, 3, 4, 5, 5, 5]), [rng.below(na) for _ in range(rng.range(1, 3))]] for _ in range(nn)]
+    ctr = [0]
+
+    def tree(depth, parent_att):
+        ctr[0] += 1
+        cid = ctr[0]
+        node = rng.below(nn)
+        L = rng.range(1, 5)
+        att = nodes[node][1]
+        if parent_att and rng.chance(5, 6):
+            ba = rng.choice(parent_att)
+        else:
+            ba = rng.below(na)
+        bh = 1 if (apps[ba][0] and rng.chance(1, 2)) else (1 if rng.chance(1, 8) else 0)
+        panics = [rng.choice(att)] if rng.chance(1, 10) else []
+        kids = []
+        if depth > 0:
+            for _ in range(rng.choice([0, 1, 1, 2])):
+                kids.append(tree(depth - 1, att))
+        return [cid, bh, ba, node, L, panics, kids]
+
+    calls = [tree(rng.range(0, 3), None) for _ in range(rng.range(1, 3))]
+    mode = 1 if (len(calls) > 1 and rng.chance(1, 3)) else 0
+    return [1, apps, nodes, calls, mode]
+
+
+def _is_hist(c):
+    return len(c) == 5
+
+
+def _ncalls(call):
+    return 1 + sum(_ncalls(k) for k in call[6])
+
+
+def _has_panic(call):
+    return bool(call[5]) or any(_has_panic(k) for k in call[6])
+
+
 def nontrivial(c):
+    if _is_hist(c):
+        return c[4] == 1 or any(k[6] or _has_panic(k) for k in c[3])
     nl, L, apps, att = c
     return L <= nl and any(len(apps[i][1]) > 0 for i in att)
 
 
 def classify(c):
+    if _is_hist(c):
+        n = sum(_ncalls(k) for k in c[3])
+        return "history mode=%d calls=%s panic=%s" % (c[4], n if n < 4 else "4+", any(_has_panic(k) for k in c[3]))
     nl, L, apps, att = c
     return "apps=%d attached=%d" % (len(apps), len(att))
 
 
+def _dcall(k):
+    return {"id": k[0], "issued_by": ("handler of appender %d's error" if k[1] else "appender %d inside append()") % k[2],
+            "node": k[3], "level": k[4], "appenders_that_panic": k[5], "nested": [_dcall(x) for x in k[6]]}
+
+
 def describe(c):
-    nl, L, apps, att = c
     names = {0: "Accept", 1: "Neutral", 2: "Reject"}
+    if _is_hist(c):
+        return {"mode": "two threads (first call on thread 1, blocked in its first handler call while thread 2 runs the rest)"
+                if c[4] else "one thread, each top-level call under catch_unwind",
+                "appenders": [{"fails": bool(f), "filters": [names[x[1]] if x[0] == 0 else "Threshold(%d)" % x[1] for x in fs]}
+                              for f, fs in c[1]],
+                "nodes": [{"level": n[0], "attached": n[1]} for n in c[2]],
+                "top_level_calls (issued_by ignored)": [_dcall(k) for k in c[3]]}
+    nl, L, apps, att = c
     return {"node_level": nl, "record_level": L, "attached": att,
             "appenders": [{"fails": bool(f), "filters": [names[x[1]] if x[0] == 0 else "Threshold(%d)" % x[1] for x in fs]}
                           for f, fs in apps]}
